@@ -176,7 +176,8 @@ def main(run, tier):
     import contracts.obfuscation as cob
     import contracts.scopes as csc
     import contracts.obfuscator as cobf
-    verify_functions(run, cob.build(obfmod) + csc.build(obfmod) + cobf.build(obfmod), {}, {}, tier=tier)
+    import contracts.namegen as cng
+    verify_functions(run, cob.build(obfmod) + csc.build(obfmod) + cobf.build(obfmod) + cng.build(obfmod), {}, {}, tier=tier)
     name_generator_obligation(run, obfmod, lexmod, tier)
     # what the obfuscation rule set plugs into a printer: the identifier resolver, its token handler and the pre-walk -- nothing that
     # could alter any other token ("differs only in identifier spellings")
@@ -210,6 +211,12 @@ def main(run, tier):
                                              ('const.id_chars_are_identifier_start', 'E3/charclass', 'chars', dict(chars=obfmod.ID_CHARS))),
                                            **({} if ok else dict(observed=cc.show(cc.minus(chars, sets['IdentifierStart'])),
                                                                  required='every generated name is an identifier', replayed=True)))
+    dup = sorted(set(c for c in obfmod.ID_CHARS if obfmod.ID_CHARS.count(c) > 1))
+    if dup or not obfmod.ID_CHARS:
+        run.failed('names.alphabet_distinct', 'E3/const', 'chars', dict(repeated=dup), observed='repeated characters %r' % (dup,),
+                   required='the name alphabet is non-empty and lists no character twice (else product() would yield a name twice)', replayed=True)
+    else:
+        run.discharged('names.alphabet_distinct', 'E3/const', 'python', 0.0)
     kw = set(lexmod.Lexer.keywords_dict.keys())
     missing = sorted(set(es5_lexical.RESERVED_WORDS) - kw)
     if missing:
@@ -344,7 +351,9 @@ def main(run, tier):
                'whole program (order of marker events along the walk; that close() has propagated every use below before the reserved '
                'set is read) -- bounded only, against spec/scopes.py; CatchScope.declare has no contract (known finding F15 lives there)',
                'set images ({resolve(v) for v in ...}) are known from below only; dict iteration visits items of the dict (model)',
-               'NameGenerator: distinctness / skip of the first names only (bounded prefix)',
+               'NameGenerator (contracts/namegen.py): every yielded name is non-empty and outside the skip set (loops cut, any iteration), a '
+               'derived generator skips the union, __next__ delegates; pairwise distinctness rests on the model of itertools.product + a '
+               'repetition-free alphabet (obligation) and is otherwise bounded (the first names)',
                'programs using `with` or direct eval are out of scope')
 
 
